@@ -54,6 +54,7 @@ var tracked = []int{11, 12, 3} // client addresses observed
 var chainNames = map[int]string{1: "eth-main", 2: "bnb-main", 3: "matic-main"}
 
 const nChains = 3
+
 var contracts = map[int]string{1: "0x1111111111111111111111111111111111111111", 2: "0x2222222222222222222222222222222222222222"}
 
 type args struct {
